@@ -757,6 +757,19 @@ func (x *c13ctx) anchors() bool {
 			loops = append(loops, rs)
 		}
 	}
+	if len(loops) == 2 {
+		// a second loop that receives from the same channel inside the first and throws the elements away
+		outer, inner := loops[0], loops[1]
+		if !(outer.Body.Pos() <= inner.Pos() && inner.End() <= outer.Body.End()) {
+			outer, inner = inner, outer
+		}
+		nested := outer.Body.Pos() <= inner.Pos() && inner.End() <= outer.Body.End()
+		discards := inner.Key == nil || exprStr(inner.Key) == "_"
+		if nested && discards && hbSameExpr(info, outer.X, inner.X) {
+			c.Fail(R, c13Collect+"|label sets discarded", pos(c, inner), "inside the loop over a metric's label sets a second loop receives the remaining label sets from the same channel and discards them: every label set that follows the one taking this branch is left out of the scrape although it is representable")
+			return false
+		}
+	}
 	if len(loops) != 1 || loops[0].Key == nil {
 		return bad("exactly one range over a channel of label sets")
 	}
